@@ -1,6 +1,6 @@
 (* C11: join computes the relational join with the documented aggregates. *)
-From Coq Require Import List ZArith Bool Sorted.
-From DF Require Import Base.Str Base.Lits Base.Value Proc.RowOps Proc.Fields Proc.Sort Proc.Sort_proofs Proc.Join Proc.Join_proofs Gen.Consts.
+From Coq Require Import List ZArith Bool Sorted Permutation.
+From DF Require Import Base.Str Base.Lits Base.Value Proc.RowOps Proc.Fields Proc.Sort Proc.Sort_proofs Proc.Join Proc.Join_proofs Proc.JoinAgg_proofs Gen.Consts.
 Import ListNotations.
 Open Scope Z_scope.
 
@@ -39,6 +39,38 @@ Print Assumptions C11_count.
 Theorem C11_array : forall v vals, agg_fold GArray SNone (v :: vals) = Ok (SList (v :: vals)).
 Proof. exact array_collects_in_order. Qed.
 Print Assumptions C11_array.
+
+(* set: the distinct values among the matching non-null values, each once *)
+Theorem C11_set : forall v vals,
+  exists l, agg_fold GSet SNone (v :: vals) = Ok (SSet l) /\ NoDup l /\ (forall x, In x l <-> In x (v :: vals)).
+Proof. exact set_is_the_set_of_values. Qed.
+Print Assumptions C11_set.
+
+(* counters: one entry per distinct value, holding its number of occurrences; the finaliser lists the
+   entries by count, descending (a sorted permutation of the counter) *)
+Theorem C11_counters : forall v vals,
+  exists l, agg_fold GCounters SNone (v :: vals) = Ok (SCounter l) /\
+    NoDup (map fst l) /\ (forall x, In x (map fst l) <-> In x (v :: vals)) /\
+    (forall x n, In (x, n) l -> n = Z.of_nat (length (filter (veqb x) (v :: vals)))).
+Proof. exact counters_count_occurrences. Qed.
+Print Assumptions C11_counters.
+
+Theorem C11_counters_listed_by_count : forall l,
+  Permutation (most_common l) l /\ Sorted (fun p q => snd q <= snd p) (most_common l).
+Proof. intros l. split; [apply most_common_perm|apply most_common_sorted]. Qed.
+Print Assumptions C11_counters_listed_by_count.
+
+(* median: the middle of the ascending permutation of the values (mean of the two middle ones when
+   their number is even) *)
+Theorem C11_median : forall z zs,
+  exists srt, Permutation srt (z :: zs) /\ Sorted Z.le srt /\
+    agg_fold GMedian SNone (map VInt (z :: zs)) = Ok (SList (map VInt (z :: zs))) /\
+    finalise GMedian (SList (map VInt (z :: zs))) =
+      (let n := Z.of_nat (length srt) in
+       let mid := Z.to_nat (n / 2) in
+       if n mod 2 =? 0 then exact_div (nth (mid - 1) srt 0 + nth mid srt 0) 2 else Ok (VInt (nth mid srt 0))).
+Proof. exact median_is_middle_of_sorted. Qed.
+Print Assumptions C11_median.
 
 (* target rows are processed one by one, in order *)
 Theorem C11_target_rows_in_order : forall fs tkey m d rows n out used,
